@@ -261,8 +261,10 @@ M('M19.5', 'C19', LOGPY, "            thermo_headers = [header for header in the
 M('M19.6', 'C19', LOGPY, "                                encoding_errors='replace')\n\n        # Reset file pointer\n        log_info.seek(0)\n\n        # Append",
   "                                encoding_errors='replace')\n\n        # Reset file pointer\n\n        # Append",
   'stream not rewound after a thermo table (needs >= 2 blocks)')
-M('M19.7', 'C19', LOGPY, "if line[:8] == 'LAMMPS (' and self.lammps_version is None:", "if line[:8] == 'LAMMPS (':",
-  'version taken from the LAST banner: allowed by the statement, which does not say which', expect='clean')
+M('M19.7', 'C19', LOGPY, "if line[:8] == 'LAMMPS (' and self.lammps_version is None:", "if line[:8] == 'LAMMPS (' and line.strip().endswith(')'):",
+  'NEGATIVE CONTROL: version taken from the LAST complete banner: allowed by the statement, which does not say which', expect='clean')
+M('M19.28', 'C19', LOGPY, "if line[:8] == 'LAMMPS (' and self.lammps_version is None:", "if line[:8] == 'LAMMPS (':",
+  'every banner line reaches the version parser: since ec4d72c a banner cut by a kill then wipes the version the object had')
 M('M19.8', 'C19', LOGPY, "merged_df[merged_df.Step < thermo.Step.min()]", "merged_df[merged_df.Step <= thermo.Step.min()]",
   'flatten last keeps the boundary step twice (needs overlapping runs)')
 M('M19.9', 'C19', LOGPY, "thermo[thermo.Step > merged_df.Step.max()]", "thermo[thermo.Step >= merged_df.Step.max()]",
